@@ -17,7 +17,10 @@ from vlib import common
 
 LEVEL = "exploration"
 EPS = 2.0 ** -52
-VALS = [0, 1, -1, 2, 0.5, 1e8 + 1, 1e8 + 2]
+VALS = [0, 1, -1, 2, 0.5, 0.1, 1e8 + 1, 1e8 + 2]
+# magnitudes at which squares under/overflow: only totality is demanded
+EXTREME = [1e-170, 2e-170, 3e-170, 2.0 ** 53 + 2, 2.0 ** 53 + 4, 1e150,
+           -1e150, 1e300, -1e300, 1e308]
 ALPHAS = [0.0, 0.05, 0.5, 1.0]
 
 
@@ -345,6 +348,9 @@ def dfs(task):
 def long_families(variant):
     fams = {
         "constant x1000": [3.25] * 1000,
+        "constant 0.1 x1000": [0.1] * 1000,
+        "constant 1/3 x50": [1 / 3] * 50,
+        "constant 1e9+0.1 x1000": [1e9 + 0.1] * 1000,
         "arithmetic progression x1000": [0.5 * i for i in range(1000)],
         "alternating +-1 x2000": [(-1) ** i for i in range(2000)],
         "large offset x1500": [1e8 + (i % 3) for i in range(1500)],
@@ -374,6 +380,36 @@ def long_families(variant):
         if sub is not None and sub.bad:
             viols.append(("published-value", [name], sub.bad[0]))
     return n, viols
+
+
+def extreme_worker(first):
+    """sequences over magnitudes whose squares underflow / overflow: no query
+    may raise, and n / min / max stay exact"""
+    from pydsol.core import statistics as S
+    n = 0
+    viols = []
+    for k in range(0, 4):
+        for rest in itertools.product(EXTREME, repeat=k):
+            seq = (first,) + rest
+            for variant in ("plain", "event"):
+                n += 1
+                t, sub = make(variant)
+                try:
+                    for x in seq:
+                        t.register(x)
+                except Exception as ex:  # noqa
+                    viols.append(("register-raised:" + type(ex).__name__,
+                                  list(seq), variant))
+                    continue
+                snap = dict(zip([g[0] for g in GETTERS], snapshot(t)))
+                for g, v in snap.items():
+                    if isinstance(v, tuple) and v and v[0] == "raised":
+                        viols.append(("getter-raised:%s:%s" % (g, v[1]),
+                                      list(seq), variant))
+                if snap["n"] != len(seq) or snap["min"] != min(seq) or \
+                        snap["max"] != max(seq):
+                    viols.append(("n-min-max", list(seq), variant))
+    return n, viols[:100]
 
 
 # ---------------------------------------------------------------- counter
@@ -471,13 +507,24 @@ def run(ctx):
                                                              v[2:]),
                           {"kind": "long", "variant": variant})
     ctx.part("long families (n up to 2000)", checkpoints=nl)
+    ne = 0
+    for n, viols in common.pimap(extreme_worker, EXTREME):
+        ne += n
+        for v in viols:
+            ctx.violation("C09:extreme:%s" % v[0],
+                          "Tally (%s) with extreme magnitudes %s: %s" % (
+                              v[2], v[1], v[0]),
+                          {"kind": "extreme", "history": v[1],
+                           "variant": v[2]}, rank=len(v[1]))
+    ctx.part("extreme magnitudes (totality only)", sequences=ne,
+             alphabet=[repr(x) for x in EXTREME])
     nc, cv = counter_check(4 if quick else 5)
     ctx.part("counter histories", sequences=nc, violations=len(cv))
     for v in cv:
         ctx.violation("C09:counter:%s:%s" % (v[1], v[0]), "Counter: %s" % (v,),
                       {"kind": "counter"})
     ctx.coverage.update(
-        evaluations=nodes + nl + nc, distinct_nontrivial=nontriv,
+        evaluations=nodes + nl + nc + ne, distinct_nontrivial=nontriv,
         rule="all operation histories of length <= %d over {register v : v in "
         "%s} + initialize() on Tally, EventBasedTally with a subscriber "
         "(register) and EventBasedTally fed through notify(DATA_EVENT); after "
@@ -517,6 +564,13 @@ def replay(data):
         out = compare(t, xs)
         check_rejected(t, data["variant"], sub, xs, out, data["history"])
         return out or None
+    if data.get("kind") == "extreme":
+        for e in EXTREME:
+            n, v = extreme_worker(e)
+            v = [x for x in v if x[1] == data["history"]]
+            if v:
+                return v[:3]
+        return None
     if data.get("kind") == "long":
         n, v = long_families(data["variant"])
         return v[:3] or None
